@@ -260,11 +260,13 @@ def unmodelledMembers : List (String × String × String) := []
 def partlyModelledMembers : List (String × String × String) := [
   ("string", "m", "转小写-英文"), ("string", "m", "转大写-英文"), ("string", "m", "转换数值")]
 
-/-- library functions, the random generator and the HTTP classes have no model at all (swept on the real code only) -/
+/-- library functions and the random generator have no model in Model/Interp.lean (swept on the real code only; JSON: Model/Json.lean, C19) -/
 def unmodelledLibrary : List (String × String × String) := [
   ("@JSON", "f", "解析JSON"), ("@JSON", "f", "生成JSON"),
   ("@文件", "f", "读取文件"), ("@文件", "f", "写入文件"), ("@文件", "f", "读取目录")]
-def unmodelledClasses : List String := ["HTTP请求", "HTTP响应"]
+/-- the value classes of pkg/common: modelled in Model/HttpValues.lean (constructors total: Properties/C10Http.lean, which also
+    proves the model's class table equal to `Members.classes`) -/
+def commonClasses : List String := ["HTTP请求", "HTTP响应"]
 
 set_option maxRecDepth 100000 in
 /-- every member name of every built-in type of the code is a name the model dispatches on -/
@@ -291,7 +293,7 @@ theorem globals_all_modelled : (initVM (ν := Unit) ()).globals.map (·.1) = Mem
 theorem constructables_modelled : Members.constructables = ["class", "number"] := by decide
 
 theorem libraries_listed : ∀ l ∈ Members.libraries, l ∈ unmodelledLibrary := by decide
-theorem classes_listed : ∀ c ∈ Members.classes, c.1 ∈ unmodelledClasses := by decide
+theorem classes_listed : ∀ c ∈ Members.classes, c.1 ∈ commonClasses := by decide
 
 /-! ## the validators -/
 
